@@ -4,6 +4,7 @@ import (
 	"fmt"
 	"math/rand"
 	"sync"
+	"time"
 
 	"golang.org/x/crypto/sha3"
 
@@ -71,6 +72,24 @@ type keyCtx struct {
 	pkB, skB []byte
 }
 
+// guarded runs f (a signing call) and reports whether it panicked or did not return within the time limit
+// (ML-DSA signing loops until a candidate is accepted; with faulty arithmetic it may never return).
+func guarded(f func()) (panicked, hung bool) {
+	done := make(chan bool, 1)
+	go func() {
+		p, _ := vt.Try(f)
+		done <- p
+	}()
+	select {
+	case p := <-done:
+		return p, false
+	case <-time.After(signLimit):
+		return false, true
+	}
+}
+
+var signLimit = 60 * time.Second
+
 func shake256(n int, parts ...[]byte) []byte {
 	x := sha3.NewShake256()
 	for _, p := range parts {
@@ -124,9 +143,13 @@ func verifyWithPk(out *sink, p pset, pkB, mp, sig []byte, kind string) {
 }
 
 func (kc *keyCtx) signEv(mp []byte, rnd [32]byte, kind string) []byte {
+	var res []byte
+	pan, hung := guarded(func() { res = h.MLDSASignInternal(kc.sk, mp, rnd) })
 	var sig []byte
-	pan, _ := vt.Try(func() { sig = h.MLDSASignInternal(kc.sk, mp, rnd) })
-	kc.out.Emit(vt.Ev{"ev": "sign", "set": kc.name, "route": "internal", "kind": kind, "sk": vt.Hex(kc.skB), "mp": vt.Hex(mp), "rnd": vt.Hex(rnd[:]), "sig": vt.Hex(sig), "panic": pan})
+	if !hung {
+		sig = res
+	}
+	kc.out.Emit(vt.Ev{"ev": "sign", "set": kc.name, "route": "internal", "kind": kind, "sk": vt.Hex(kc.skB), "mp": vt.Hex(mp), "rnd": vt.Hex(rnd[:]), "sig": vt.Hex(sig), "panic": pan, "hung": hung})
 	return sig
 }
 
@@ -518,12 +541,17 @@ func (pk *pubKey) ev(name string) vt.Ev {
 }
 
 func (pk *pubKey) sign(msg []byte, kind string) []byte {
+	var res []byte
+	var rerr error
+	pan, hung := guarded(func() { res, rerr = pk.signer.Sign(msg) })
 	var sig []byte
 	var err error
-	pan, _ := vt.Try(func() { sig, err = pk.signer.Sign(msg) })
+	if !hung {
+		sig, err = res, rerr
+	}
 	e := pk.ev("signed")
 	e["seed"], e["keyVariant"] = vt.Hex(pk.seed), pk.variant
-	e["kind"], e["msg"], e["sig"], e["err"], e["panic"] = kind, vt.Hex(msg), vt.Hex(sig), err != nil, pan
+	e["kind"], e["msg"], e["sig"], e["err"], e["panic"], e["hung"] = kind, vt.Hex(msg), vt.Hex(sig), err != nil, pan, hung
 	pk.out.Emit(e)
 	return sig
 }
@@ -672,9 +700,12 @@ func internalRoutes(out *sink, p pset, r *rand.Rand, full bool) {
 			var mu [64]byte
 			r.Read(mu[:])
 			var rnd [32]byte
-			var sig []byte
-			pan, _ := vt.Try(func() { sig = h.MLDSASignInternalWithMu(kc.sk, mu, rnd) })
-			out.Emit(vt.Ev{"ev": "signmu", "set": name, "sk": vt.Hex(kc.skB), "mu": vt.Hex(mu[:]), "rnd": vt.Hex(rnd[:]), "sig": vt.Hex(sig), "panic": pan})
+			var sig, res []byte
+			pan, hung := guarded(func() { res = h.MLDSASignInternalWithMu(kc.sk, mu, rnd) })
+			if !hung {
+				sig = res
+			}
+			out.Emit(vt.Ev{"ev": "signmu", "set": name, "sk": vt.Hex(kc.skB), "mu": vt.Hex(mu[:]), "rnd": vt.Hex(rnd[:]), "sig": vt.Hex(sig), "panic": pan, "hung": hung})
 			if sig != nil {
 				var err error
 				pan, _ := vt.Try(func() { err = kc.pk.VerifyWithMu(mu, sig) })
@@ -799,7 +830,13 @@ func publicRoutes(out *sink, p pset, r *rand.Rand, full bool) {
 			if pan || err != nil {
 				continue
 			}
-			pan, _ = vt.Try(func() { s2, err = ps.SignPrehash(dig) })
+			var res2 []byte
+			var rerr2 error
+			var hung bool
+			pan, hung = guarded(func() { res2, rerr2 = ps.SignPrehash(dig) })
+			if !hung {
+				s2, err = res2, rerr2
+			}
 			// SignPrehash returns a bare ML-DSA signature of msg (no output prefix, also for TINK keys). For an
 			// EXTERNAL_MU key this is what the ordinary verifier takes; for a TINK key the bare signature is judged
 			// as a NO_PREFIX signature, and the verifier is asked about both forms.
@@ -808,7 +845,7 @@ func publicRoutes(out *sink, p pset, r *rand.Rand, full bool) {
 			if variant == "TINK" {
 				e["variant"], e["id"] = "NO_PREFIX", "00000000"
 			}
-			e["kind"], e["msg"], e["sig"], e["err"], e["panic"] = "prehash", vt.Hex(msg), vt.Hex(s2), err != nil, pan
+			e["kind"], e["msg"], e["sig"], e["err"], e["panic"], e["hung"] = "prehash", vt.Hex(msg), vt.Hex(s2), err != nil, pan, hung
 			out.Emit(e)
 			if s2 != nil {
 				withPrefix := append(clone(pk.priv.OutputPrefix()), s2...)
@@ -928,10 +965,14 @@ func compositeRoutes(out *sink, r *rand.Rand, full bool) {
 					"pkM": vt.Hex(pkM), "pkC": vt.Hex(pkC), "msg": vt.Hex(msg), "sig": vt.Hex(sig), "ok": err == nil && !pan, "panic": pan})
 			}
 			msg := msgOf(r, 2+vi)
-			var sig []byte
-			pan, _ := vt.Try(func() { sig, err = signer.Sign(msg) })
-			if pan || err != nil {
-				emit(nil, msg, "sign-failed")
+			var sig, res []byte
+			var rerr error
+			pan, hung := guarded(func() { res, rerr = signer.Sign(msg) })
+			if !hung {
+				sig, err = res, rerr
+			}
+			if pan || hung || err != nil {
+				out.Emit(vt.Ev{"ev": "signfail", "what": "composite " + inst + " " + cb.c.alg, "panic": pan, "hung": hung, "err": err != nil})
 				continue
 			}
 			pre := 0
